@@ -670,6 +670,18 @@ type LemmaDef struct {
 	Name string
 }
 
+// GuardDef declares a synchronisation discipline for a struct field:
+//
+//	guarded T.f by m   - every access needs the mutex in field m of the same object to be held
+//	atomic T.f         - the field may only be accessed through sync/atomic (its address passed on)
+type GuardDef struct {
+	Type, Field, By string
+	Atomic          bool
+	Pkg             string
+	File            string
+	Line            int
+}
+
 type SmtDef struct {
 	Mode string // "real", "fp" or "" (both)
 	Text string
@@ -705,34 +717,35 @@ type GhostStmt struct {
 }
 
 type FuncContract struct {
-	Key      string // resolved function key, e.g. "genetics.geneInsert", "genetics.(*Genome).geneInsert"
-	Pkg      string // package path of the declaring file ("" for externals file)
-	Props    []string
-	Requires []*Clause
-	Ensures  []*Clause
-	Modifies []string
-	HasMod   bool
-	Loops    map[int]*LoopSpec
-	Trusted  bool // assumed, not verified (externals, interface methods)
-	Inline   bool
-	Mode     string   // "", "real", "fp"
-	Params   []string // optional explicit parameter names (externals)
-	MayPanic bool
-	Pure     bool // no heap effect, no allocation
-	NoAlloc  bool
-	FDef     bool // float divisions generate definedness obligations
-	Ghost    []*GhostStmt
-	Asserts  []*AssertAt
-	Uses     []string // axioms made available to this function's obligations
-	IsLemma  bool     // no function body: the ensures clauses are proved from the used axioms alone
-	UFArith  bool     // symbolic float products / quotients are uninterpreted (fmulU / fdivU)
-	Induct   string   // smtlemma: induction variable (Int, >= 0)
-	RawVars  string   // smtlemma: SMT binder list of the universally quantified variables, e.g. "(a (Array Int Int)) (o Int)"
-	RawClaim string   // smtlemma: SMT formula over RawVars and Induct
-	RawPat   string   // smtlemma: trigger used when the proven lemma is made available as an axiom
-	File     string
-	Line     int
-	Reason   string // free text for trusted contracts
+	Key       string // resolved function key, e.g. "genetics.geneInsert", "genetics.(*Genome).geneInsert"
+	Pkg       string // package path of the declaring file ("" for externals file)
+	Props     []string
+	Requires  []*Clause
+	Ensures   []*Clause
+	Modifies  []string
+	HasMod    bool
+	Loops     map[int]*LoopSpec
+	Trusted   bool // assumed, not verified (externals, interface methods)
+	Inline    bool
+	Mode      string   // "", "real", "fp"
+	Params    []string // optional explicit parameter names (externals)
+	MayPanic  bool
+	Pure      bool // no heap effect, no allocation
+	NoAlloc   bool
+	FDef      bool // float divisions generate definedness obligations
+	Ghost     []*GhostStmt
+	Asserts   []*AssertAt
+	Uses      []string // axioms made available to this function's obligations
+	IsLemma   bool     // no function body: the ensures clauses are proved from the used axioms alone
+	Exclusive bool     // runs while the receiver is not shared between goroutines (constructors, the sequential phase): guard obligations do not apply
+	UFArith   bool     // symbolic float products / quotients are uninterpreted (fmulU / fdivU)
+	Induct    string   // smtlemma: induction variable (Int, >= 0)
+	RawVars   string   // smtlemma: SMT binder list of the universally quantified variables, e.g. "(a (Array Int Int)) (o Int)"
+	RawClaim  string   // smtlemma: SMT formula over RawVars and Induct
+	RawPat    string   // smtlemma: trigger used when the proven lemma is made available as an axiom
+	File      string
+	Line      int
+	Reason    string // free text for trusted contracts
 }
 
 type AssertAt struct {
@@ -748,6 +761,7 @@ type SpecFile struct {
 	Funcs   []*FuncContract
 	Lemmas  []*LemmaDef
 	SmtDefs []*SmtDef
+	Guards  []*GuardDef
 }
 
 var clauseKeywords = map[string]bool{
@@ -756,7 +770,7 @@ var clauseKeywords = map[string]bool{
 	"invariant": true, "trusted": true, "inline": true, "mode": true, "params": true,
 	"maypanic": true, "fdef": true, "pure": true, "noalloc": true, "set": true, "reason": true,
 	"uses": true, "lemma": true, "exit": true, "free_ensures": true, "ensures_local": true,
-	"ufarith": true, "smtlemma": true, "induct": true, "vars": true, "claim": true, "pattern": true, "smtaxiom": true, "smtdef": true, "guarded": true, "assert": true,
+	"atomic": true, "exclusive": true, "ufarith": true, "smtlemma": true, "induct": true, "vars": true, "claim": true, "pattern": true, "smtaxiom": true, "smtdef": true, "guarded": true, "assert": true,
 }
 
 type rawLine struct {
@@ -852,6 +866,21 @@ func ParseSpecFile(path, pkgPath string) (*SpecFile, error) {
 			cur = &FuncContract{Key: "lemma " + strings.TrimSpace(rest), Pkg: pkgPath, Loops: map[int]*LoopSpec{}, File: path, Line: rl.line, IsLemma: true}
 			curLoop = nil
 			sf.Funcs = append(sf.Funcs, cur)
+		case "guarded", "atomic":
+			fs := strings.Fields(rest)
+			if len(fs) == 0 || !strings.Contains(fs[0], ".") {
+				return nil, fail(fmt.Errorf("guarded T.f by m | atomic T.f"))
+			}
+			k := strings.LastIndex(fs[0], ".")
+			gd := &GuardDef{Type: fs[0][:k], Field: fs[0][k+1:], Atomic: kw == "atomic", Pkg: pkgPath, File: path, Line: rl.line}
+			if kw == "guarded" {
+				if len(fs) != 3 || fs[1] != "by" {
+					return nil, fail(fmt.Errorf("guarded T.f by m"))
+				}
+				gd.By = fs[2]
+			}
+			sf.Guards = append(sf.Guards, gd)
+			cur, curLoop = nil, nil
 		case "smtlemma":
 			cur = &FuncContract{Key: "lemma " + strings.TrimSpace(rest), Pkg: pkgPath, Loops: map[int]*LoopSpec{}, File: path, Line: rl.line, IsLemma: true}
 			curLoop = nil
@@ -899,6 +928,8 @@ func ParseSpecFile(path, pkgPath string) (*SpecFile, error) {
 				cur.FDef = true
 			case "ufarith":
 				cur.UFArith = true
+			case "exclusive":
+				cur.Exclusive = true
 			case "pure":
 				cur.Pure = true
 			case "noalloc":
